@@ -197,6 +197,17 @@ func genC02(g *Gen, idx int) *Plan {
 	if g.Bool(0.1) {
 		p.Broker.Injects[0].Payload = serialPayload("big", 0, int(g.Range(7000, 7150)))
 	}
+	if g.Bool(0.35) {
+		// retained messages published on SUBSCRIBE, some before the SUBACK that announces the topic id
+		// (in-order link, otherwise a PUBLISH may overtake the SUBACK that precedes it)
+		p.Cfg.SN.FIFO = true
+		for k := 0; k < int(g.Range(1, 3)); k++ {
+			p.Broker.Retained = append(p.Broker.Retained, BrokerRetained{Topic: namePool[g.Intn(len(namePool))], Payload: serialPayload("r", k, int(g.Range(0, 10))), QoS: uint8(g.Intn(3)), Early: g.Bool(0.6)})
+		}
+		if g.Bool(0.4) {
+			p.Broker.AnswerDelayMs = g.Range(20, 300)
+		}
+	}
 	p.Peers = []PeerPlan{{Name: "p1", Ops: sg.ops}}
 	p.Cfg.HorizonMs = start + 6000 + 6000
 	return p
